@@ -9,7 +9,7 @@ LEVEL = dict(
               "pushed per entry; Index pairs and Length come from the serialised sections; save ordering: header, binary mark, "
               "objects, xref_start read after the last object and written after `startxref`; Size = max_id + 1; subsections start at "
               "the id of their first entry; what a strict reader normalises is escaped (CR in literal strings); every Stream "
-              "constructor/setter sets Length from the content",
+              "constructor/setter sets Length from the content; every XrefEntry variant reaches a 20-byte format site; on load xref.size is forced to max_id()+1 in both directions, after every Xref::merge, before Document.max_id is assigned (an understated Size would otherwise be written back)",
     explanation="Decides the writer-side structural facts that do not depend on the document's values. Does not decide: that "
                 "offsets are numerically right for a given document beyond their provenance (the byte counter, C19), `as u32` "
                 "truncation above 4 GiB, that Size exceeds every object number (needs max_id >= every key, C11).",
